@@ -18,13 +18,23 @@ EXPLANATION = (
 NOT_DECIDED = ["that Bevy's System keeps Locals across run_unsafe calls (trusted)"]
 
 
-def _check_rwc(ctx, prog, m, depth=0, require_init=True):
+def _takes_callback_state(m, t):
+    """the first operand of a mem::take / mem::replace is a `&mut (Raw)CallbackSystem<..>`"""
+    p = op_place(t["args"][0]) if t["args"] else None
+    if p is None or p["p"]:
+        return False
+    ty = m.local_ty(p["l"])
+    return ty.startswith("&mut ") and re.search(r"::(Raw)?CallbackSystem<", ty) is not None
+
+
+def _check_rwc(ctx, prog, m, depth=0, require_init=True, by_type=False):
     """C13.b for one run_with_cleanup function. If the taken state is matched inside a crate-local callee (e.g. an
     extraction helper such as `take_initialized`), the callee is inlined at that call site and the rule is evaluated on
     the inlined body: inlining preserves semantics, so the rule holds for the program if it holds there."""
     ctx.touch(m, calls=len(list(m.iter_calls())))
     fk = lib.fkey(m)
-    takes = [b for b, t, fr in m.iter_calls() if fr and lib.tail(mir.fn_name(fr), 2) in ("mem::take", "mem::replace") and lib.originates_from_arg(m, t["args"][0], 1)]
+    takes = [b for b, t, fr in m.iter_calls() if fr and lib.tail(mir.fn_name(fr), 2) in ("mem::take", "mem::replace")
+             and (_takes_callback_state(m, t) if by_type else lib.originates_from_arg(m, t["args"][0], 1))]
     if not ctx.check(len(takes) == 1, "C13.b", "%s:takes-self-once" % fk, "%s:%d" % (m.file, m.line), "", "self is taken %d times" % len(takes)):
         return
     tb = takes[0]
@@ -51,7 +61,7 @@ def _check_rwc(ctx, prog, m, depth=0, require_init=True):
                     m2 = inline.inline_at(prog, m, b)
                     if m2 is not None:
                         ctx.notes.append("C13.b: %s matches the taken state inside %s; evaluated on the body with that call inlined" % (fk, lib.tail(mir.fn_name(fr), 2)))
-                        return _check_rwc(ctx, prog, m2, depth + 1, require_init)
+                        return _check_rwc(ctx, prog, m2, depth + 1, require_init, by_type)
         ctx.fail("C13.b", "%s:anchor-lost:state-match" % fk, m.loc(tb), "taken state is not matched")
         return
     arms, ow, adt = lib.enum_arms(m, prog, sw[0])
@@ -145,6 +155,14 @@ def check(ctx):
             continue
         if any(fr and lib.tail(mir.fn_name(fr), 2) in ("mem::take", "mem::replace") and lib.originates_from_arg(m, t["args"][0], 1) for b, t, fr in m.iter_calls()):
             _check_rwc(ctx, prog, m, require_init=False)
+
+    # ... and so does any other function or closure that takes the state out of a callback system it holds by reference (a new
+    # run method inlined into its caller in the normalised view, or open-coded there)
+    for m in prog.bodies:
+        if m in rwc or (m.kind == "assoc_fn" and re.sub(r"<.*$", "", m.raw.get("impl_self", "") or "").endswith(("::CallbackSystem", "::RawCallbackSystem"))):
+            continue
+        if any(fr and lib.tail(mir.fn_name(fr), 2) in ("mem::take", "mem::replace") and _takes_callback_state(m, t) for b, t, fr in m.iter_calls()):
+            _check_rwc(ctx, prog, m, require_init=False, by_type=True)
 
     # ---- C13.c one state per registration ----
     try:
